@@ -85,6 +85,7 @@ class GroupLibrary(Mapping):
         """
         self.scheme = scheme
         self.path = path
+        self.name = None
         if isinstance(contents, Mapping):
             contents = list(contents.items())
         self.contents = dict((group, property_sets)
